@@ -16,6 +16,7 @@ func init() {
 	verifRegister("VerifC14_KMalformed", VerifC14_KMalformed)
 	verifRegister("VerifC14_KKeys", VerifC14_KKeys)
 	verifRegister("VerifC14_KWhen", VerifC14_KWhen)
+	verifRegister("VerifC14_KTruthy", VerifC14_KTruthy)
 }
 
 var c14Env *lisp.LEnv
@@ -45,6 +46,7 @@ func VerifC14_KCompose_Setup()   { c14Setup() }
 func VerifC14_KMalformed_Setup() { c14Setup() }
 func VerifC14_KKeys_Setup()      { c14Setup() }
 func VerifC14_KWhen_Setup()      { c14Setup() }
+func VerifC14_KTruthy_Setup()    { c14Setup() }
 
 func c14Load(env *lisp.LEnv, src string) *lisp.LVal { return env.LoadString("c14", src) }
 
@@ -480,5 +482,43 @@ func VerifC14_KWhen() {
 		vCover("guard-not-met")
 	}
 	vAssert(got == want, "s:when = (guard on the value at key) implies (constraints on the value at matchKey): got "+got+" want "+want+" (guard "+guardV+", constraints "+checkV+")")
+	vCover("end")
+}
+
+// s:is-truthy / s:is-falsy / s:is-true / s:is-false as documented: "Truthy values include: true,
+// non-empty strings (not "false"), non-empty arrays/maps/bytes, and positive numbers"; is-falsy is
+// its logical negation.  Values of every kind, numbers symbolic.
+func VerifC14_KTruthy() {
+	env := c14Setup()
+	i := vndInt("i")
+	f := vndFloat64("f")
+	vAssume(f == f)
+	env.PutGlobal(lisp.Symbol("i"), lisp.Int(i))
+	env.PutGlobal(lisp.Symbol("f"), lisp.Float(f))
+	vals := []string{"true", "false", "()", "\"\"", "\"x\"", "\"false\"", "\"true\"", "(vector)", "(vector 0)", "(sorted-map)", "(sorted-map \"a\" ())", "(to-bytes \"\")", "(to-bytes \"b\")", "i", "f", "'sym", "(list 1)"}
+	truthy := []int{1, 0, 0, 0, 1, 0, 1, 0, 1, 0, 1, 0, 1, -1, -2, 0, -3} // -1: i > 0, -2: f > 0, -3: not documented
+	vi := vConcInt(vndChoice("val", len(vals)))
+	want := truthy[vi] == 1
+	switch truthy[vi] {
+	case -1:
+		want = i > 0
+	case -2:
+		want = f > 0
+	case -3:
+		vCover("undocumented")
+		return
+	}
+	r := c14Load(env, "(set 'tv (s:make-validator \"t\" \"any\" (s:is-truthy))) (set 'fv (s:make-validator \"f\" \"any\" (s:is-falsy))) (set 'x "+vals[vi]+")")
+	vAssert(r.Type != lisp.LError, "schemas build: "+c14Verdict(r))
+	gotT := c14Verdict(c14Load(env, "(s:validate tv x)"))
+	gotF := c14Verdict(c14Load(env, "(s:validate fv x)"))
+	vObserve("value", vals[vi])
+	if want {
+		vAssert(gotT == "ok", "a truthy value satisfies s:is-truthy: "+vals[vi]+" gave "+gotT)
+		vAssert(gotF == FailedConstraint, "and fails s:is-falsy")
+	} else {
+		vAssert(gotT == FailedConstraint, "a value that is not truthy fails s:is-truthy: "+vals[vi]+" gave "+gotT)
+		vAssert(gotF == "ok", "and satisfies s:is-falsy")
+	}
 	vCover("end")
 }
